@@ -32,6 +32,17 @@ class Inconclusive(Exception):
     pass
 
 
+def out(*a):
+    """print that survives a reader closing the pipe early (the exit code must still be the verdict)."""
+    try:
+        print(*a, flush=True)
+    except BrokenPipeError:
+        try:
+            sys.stdout = open(os.devnull, "w")
+        except OSError:
+            pass
+
+
 def h64(obj):
     """Stable 64-bit digest of a JSON-like object (independent of PYTHONHASHSEED)."""
     return int.from_bytes(hashlib.blake2b(repr(obj).encode(), digest_size=8).digest(), "big")
@@ -375,11 +386,11 @@ def run_check(pid, tier, seed):
         if total.errors and not total.violations:
             raise Inconclusive(total.errors[0])
     except Inconclusive as e:
-        print("INCONCLUSIVE property=%s reason=%s" % (pid, str(e).replace("\n", " | ")[:1500]))
+        out("INCONCLUSIVE property=%s reason=%s" % (pid, str(e).replace("\n", " | ")[:1500]))
         return 2
 
     for err in total.errors[:3]:
-        print("NOTE harness error alongside violations: %s" % err.replace("\n", " | ")[:300])
+        out("NOTE harness error alongside violations: %s" % err.replace("\n", " | ")[:300])
     known, _fixed = load_known()
     prop = property_record(pid)
     # classify violations
@@ -392,10 +403,10 @@ def run_check(pid, tier, seed):
         else:
             fresh.append(v)
     if total.errors and not fresh:
-        print("INCONCLUSIVE property=%s reason=harness error: %s" % (pid, total.errors[0].replace("\n", " | ")[:1500]))
+        out("INCONCLUSIVE property=%s reason=harness error: %s" % (pid, total.errors[0].replace("\n", " | ")[:1500]))
         return 2
     for (p_, key), v in sorted(seen_known.items()):
-        print("KNOWN-FINDING: property=%s %s" % (pid, known[(p_, key)] if known[(p_, key)] else key))
+        out("KNOWN-FINDING: property=%s %s" % (pid, known[(p_, key)] if known[(p_, key)] else key))
     replay_paths = []
     dedup = {}
     for v in fresh:
@@ -406,8 +417,8 @@ def run_check(pid, tier, seed):
     for key, v in list(dedup.items())[:20]:
         path = write_replay(pid, tier, seed, v)
         replay_paths.append(path)
-        print("VIOLATION property=%s replay=%s" % (pid, path))
-        print("  what: %s" % v["what"][:600])
+        out("VIOLATION property=%s replay=%s" % (pid, path))
+        out("  what: %s" % v["what"][:600])
     # coverage of anchored mechanisms
     anchors = []
     for name, fn, lines in anchor_ranges(prop):
@@ -447,11 +458,11 @@ def run_check(pid, tier, seed):
         "violations": len(dedup),
     }
     if total.evals < 1 or distinct < 2:
-        print("INCONCLUSIVE property=%s reason=monitor observed too little (evaluations=%d distinct=%d)"
+        out("INCONCLUSIVE property=%s reason=monitor observed too little (evaluations=%d distinct=%d)"
               % (pid, total.evals, distinct))
         return 2
     write_evidence(pid, doc)
-    print("%s %s seed=%d: evaluations=%d distinct_nontrivial=%d known=%d new_violations=%d wall=%.1fs"
+    out("%s %s seed=%d: evaluations=%d distinct_nontrivial=%d known=%d new_violations=%d wall=%.1fs"
           % (pid, tier, seed, total.evals, distinct, len(seen_known), len(dedup), time.time() - t0))
     return 1 if dedup else 0
 
@@ -461,25 +472,25 @@ def run_replay(pid, path):
     try:
         env.use_repo()
     except Exception as e:          # noqa: BLE001
-        print("INCONCLUSIVE property=%s reason=package not importable: %s" % (pid, e))
+        out("INCONCLUSIVE property=%s reason=package not importable: %s" % (pid, e))
         return 2
     mod = importlib.import_module("hv.checks." + pid.lower())
     body = json.load(open(path))
     _worker_init()
     vs = mod.replay(body["case"])
     if vs:
-        print("VIOLATION property=%s replay=%s" % (pid, path))
+        out("VIOLATION property=%s replay=%s" % (pid, path))
         for v in vs[:5]:
-            print("  what: %s" % v["what"][:600])
+            out("  what: %s" % v["what"][:600])
         return 1
-    print("REPLAY-OK property=%s case no longer violates" % pid)
+    out("REPLAY-OK property=%s case no longer violates" % pid)
     return 0
 
 
 def main(argv=None):
     argv = list(sys.argv[1:] if argv is None else argv)
     if not argv:
-        print("usage: check <Cxx> <quick|thorough> | check <Cxx> --replay <path>")
+        out("usage: check <Cxx> <quick|thorough> | check <Cxx> --replay <path>")
         return 2
     pid = argv[0].upper()
     if "--replay" in argv:
